@@ -3,6 +3,7 @@ module verif/harness
 go 1.13
 
 require (
+	github.com/BurntSushi/toml v0.0.0-00010101000000-000000000000
 	github.com/grafana/carbon-relay-ng v0.0.0
 	github.com/sirupsen/logrus v1.1.2-0.20181020050904-08e90462da34
 )
